@@ -182,6 +182,20 @@ theorem wf_truncV (s : State K) (l r : K) (lr rr : Bool) (h : WF s)
   · simp only [length_drop_take]; omega
   · simp only [length_drop_take]; omega
 
+/-- a checkable sufficient condition for the `truncV` precondition: the range (after the ratio
+conversion, which uses each series' own end points) is not inverted and properly overlaps both the
+working and the reference series -/
+theorem valid_truncV (s : State K) (l r : K) (lr rr : Bool) (h : WF s)
+    (hx : truncBound s.x l lr < truncBound s.x r rr ∧ truncBound s.x l lr < s.x.getLastD 0 ∧
+      s.x.headD 0 < truncBound s.x r rr)
+    (hrx : truncBound s.rx l lr < truncBound s.rx r rr ∧ truncBound s.rx l lr < s.rx.getLastD 0 ∧
+      s.rx.headD 0 < truncBound s.rx r rr) :
+    Valid s (.truncV l r lr rr) := by
+  obtain ⟨h1, h2, h3, h4, h5, h6, h7, h8, h9⟩ := h
+  obtain ⟨a, b, e1, v1, v2⟩ := truncateBounds_ok s.x l r lr rr h2 h7 hx.1 hx.2.1 hx.2.2
+  obtain ⟨a', b', e2, v3, v4⟩ := truncateBounds_ok s.rx l r lr rr h4 h8 hrx.1 hrx.2.1 hrx.2.2
+  exact ⟨a, b, a', b', e1, e2, v1, by omega, v3, by omega⟩
+
 theorem wf_truncI (s : State K) (start : ℤ) (stop : Option ℤ) (h : WF s)
     (hv : Valid s (.truncI start stop)) :
     (step s (.truncI start stop)).err = none ∧ WF (step s (.truncI start stop)).state := by
